@@ -118,6 +118,22 @@ CHECKS.update({
         note='The reference is never regenerated from /repo.'),
 })
 
+CHECKS.update({
+    'C05': dict(
+        cat='model_checking', ref='DESIGN.md 4.4, 5.4, 6/C05', engine='steps',
+        technique='file-operation protocols RECORDED from the real code per data kind / phase / fault are model-checked '
+                  'by TLC (StoreSteps: crash before every operation and inside every write), and every such crash '
+                  'point and torn prefix is replayed on the real code with a later chain judging the outcome',
+        text='For 8 data kinds x {first computation, forced recomputation over an existing result} x {fault-free, run '
+             'raises, mistyped, unserializable, generator body raises} the harness records every file-system operation '
+             'of the value request (harness-side interposition), abstracts it to operations on final/tmp/err/old '
+             'objects and TLC explores all crash points checking VisibleIsComplete (via EmitBad), DoneMeansStored, '
+             'FailPublishesNothing, WorkDirs. The same crash points (os._exit before operation k) and torn prefixes of '
+             'every written file are then produced for real; a fresh interpreter must find either no result and '
+             'recompute, or the complete value, and a second request must succeed.',
+        note='Python-level file operations; fsync/durability not modelled; FigureData/H5Data not exercised.'),
+})
+
 PENDING = {
     'C02': 'check not built yet (KeyScheme specification in progress)',
     'C03': 'check not built yet (KeyScheme specification in progress)',
@@ -174,6 +190,9 @@ def main():
             {'name': 'keys', 'path': '/verif/specs/KeyScheme.tla', 'serves_properties': ['C02', 'C03', 'C12'],
              'kind_free_text': 'TLA+ transcription of the 1.4.0 key derivation on TLC strings (+ KeyPairs.tla); '
                                'harness/tcverif/key_check.py binds'},
+            {'name': 'steps', 'path': '/verif/specs/StoreSteps.tla', 'serves_properties': ['C05'],
+             'kind_free_text': 'TLA+ semantics of file operations on final/tmp/err/old objects with Crash; protocols are '
+                               'recorded from the real code (harness/tcverif/fsops.py, faults.py)'},
             {'name': 'store', 'path': '/verif/specs/StoreAtomic.tla',
              'serves_properties': ['C01', 'C04', 'C07', 'C13'],
              'kind_free_text': 'TLA+ specification of task objects / chains / data directory at public-call '
